@@ -1067,6 +1067,14 @@ package kafka
 //@   callsite iface Merger.Merge ensures p.$merged
 //@   ensures p.$merged
 //@   loop 0 invariant len(results) == len(p.promises) && !p.$merged
+// Client.Metadata: a failure concerning one partition is reported on that partition (its own error code, not the topic's),
+// with the partition's own id.
+//@ func (*Client).Metadata
+//@   option noframe
+//@   option only inv-step
+//@   modifies heap
+//@   loop 1 step (ret.Topics[rangeindex#1].Error == nil) == (t.ErrorCode == 0)
+//@   loop 2 step (partition.Error == nil) == (p.ErrorCode == 0) && partition.ID == int(p.PartitionIndex)
 //@ func (*Client).ListOffsets
 //@   option noframe
 //@   modifies heap
